@@ -1306,6 +1306,15 @@ func TestC03MonitorSensitivity(t *testing.T) {
 //        the chain keeps for a denom (authority metadata, bank metadata, supply, ERC20 bridge
 //        bindings) is its CURRENT admin's; it changes only through a transaction signed by
 //        that admin or by an address holding a fee grant from it.
+//        Every history has TWO denoms named after different principals, and the binding
+//        messages that carry two denom-bearing fields (set_metadata / create_denom with
+//        metadata: `denom` and `metadata.base`) spell in the second one nothing, the same, the
+//        OTHER denom (existing or not yet created) or an unrelated string; the rule is
+//        evaluated on both denoms, whichever the message names.  At any point the chain may be
+//        exported and started again from the export (step `reimport`, token factory module):
+//        nobody's transaction, so (monitor denom-changed-without-transaction) admin, records,
+//        supply and bindings of every denom are as before, and the former admins stay locked
+//        out afterwards.  (lnh has the same step for the paloma module.)
 //
 //   cbh  batch confirmations where sender, orchestrator, eth signer, signing key and signed
 //        item are chosen INDEPENDENTLY (honest, relayed by somebody else, filed under another
@@ -1377,10 +1386,16 @@ func (d *c03Dir) pidOfAddr(addr string) int {
 
 // ---- denoms ---------------------------------------------------------------------------
 
-// c03DenomState is everything the chain keeps FOR a denom, by component.
-func c03DenomState(w *ZooWorld, ctx sdk.Context, denom string) (admin string, exists bool, comp map[string]string) {
+// c03DenomSt is everything the chain keeps FOR a denom, by component.
+type c03DenomSt struct {
+	admin  string
+	exists bool
+	comp   map[string]string
+}
+
+// c03DenomStates: the same for several denoms with one pass over the stores.
+func c03DenomStates(w *ZooWorld, ctx sdk.Context, denoms ...string) []c03DenomSt {
 	a := w.FA.App()
-	comp = map[string]string{}
 	dg := func(parts ...[]byte) string {
 		h := sha256.New()
 		for _, p := range parts {
@@ -1389,46 +1404,55 @@ func c03DenomState(w *ZooWorld, ctx sdk.Context, denom string) (admin string, ex
 		}
 		return hex.EncodeToString(h.Sum(nil)[:8])
 	}
-	if md, err := a.TokenFactoryKeeper.GetAuthorityMetadata(ctx, denom); err == nil {
-		admin = md.Admin
-	} else {
-		admin = "?" + err.Error()
-	}
-	comp["admin"] = admin
-	var tf [][]byte
-	for _, kv := range c03DumpCtx(w.FA, ctx, "tokenfactory") {
-		if bytes.Contains(kv[0], []byte(denom)) || bytes.Contains(kv[1], []byte(denom)) {
-			tf = append(tf, kv[0], kv[1])
+	tfStore := c03DumpCtx(w.FA, ctx, "tokenfactory")
+	e2d, errE := a.SkywayKeeper.GetAllERC20ToDenoms(ctx)
+	d2e, errD := a.SkywayKeeper.GetAllDenomToERC20s(ctx)
+	out := make([]c03DenomSt, len(denoms))
+	for i, denom := range denoms {
+		comp := map[string]string{}
+		admin, exists := "", false
+		if md, err := a.TokenFactoryKeeper.GetAuthorityMetadata(ctx, denom); err == nil {
+			admin = md.Admin
+		} else {
+			admin = "?" + err.Error()
+		}
+		comp["admin"] = admin
+		var tf [][]byte
+		for _, kv := range tfStore {
+			if bytes.Contains(kv[0], []byte(denom)) || bytes.Contains(kv[1], []byte(denom)) {
+				tf = append(tf, kv[0], kv[1])
+				exists = true
+			}
+		}
+		comp["tokenfactory-records"] = dg(tf...)
+		if m, ok := a.BankKeeper.GetDenomMetaData(ctx, denom); ok {
+			bz, _ := m.Marshal()
+			comp["bank-metadata"] = dg(bz)
 			exists = true
+		} else {
+			comp["bank-metadata"] = "-"
 		}
-	}
-	comp["tokenfactory-records"] = dg(tf...)
-	if m, ok := a.BankKeeper.GetDenomMetaData(ctx, denom); ok {
-		bz, _ := m.Marshal()
-		comp["bank-metadata"] = dg(bz)
-		exists = true
-	} else {
-		comp["bank-metadata"] = "-"
-	}
-	comp["supply"] = a.BankKeeper.GetSupply(ctx, denom).Amount.String()
-	var binds []string
-	if all, err := a.SkywayKeeper.GetAllERC20ToDenoms(ctx); err == nil {
-		for _, b := range all {
-			if b != nil && b.Denom == denom {
-				binds = append(binds, "e>"+b.ChainReferenceId+"/"+strings.ToLower(b.Erc20))
+		comp["supply"] = a.BankKeeper.GetSupply(ctx, denom).Amount.String()
+		var binds []string
+		if errE == nil {
+			for _, b := range e2d {
+				if b != nil && b.Denom == denom {
+					binds = append(binds, "e>"+b.ChainReferenceId+"/"+strings.ToLower(b.Erc20))
+				}
 			}
 		}
-	}
-	if all, err := a.SkywayKeeper.GetAllDenomToERC20s(ctx); err == nil {
-		for _, b := range all {
-			if b != nil && b.Denom == denom {
-				binds = append(binds, "d>"+b.ChainReferenceId+"/"+strings.ToLower(b.Erc20))
+		if errD == nil {
+			for _, b := range d2e {
+				if b != nil && b.Denom == denom {
+					binds = append(binds, "d>"+b.ChainReferenceId+"/"+strings.ToLower(b.Erc20))
+				}
 			}
 		}
+		sort.Strings(binds)
+		comp["bridge-binding"] = strings.Join(binds, ",")
+		out[i] = c03DenomSt{admin, exists, comp}
 	}
-	sort.Strings(binds)
-	comp["bridge-binding"] = strings.Join(binds, ",")
-	return admin, exists, comp
+	return out
 }
 
 func c03DenomDiff(a, b map[string]string) []string {
@@ -1442,22 +1466,48 @@ func c03DenomDiff(a, b map[string]string) []string {
 	return out
 }
 
-// denomHistory: one `dnh` line.
+// c03DenomMetaKind: the bank's metadata record of a denom: "-" none, "d" the default record
+// createDenomAfterValidation writes, "c" anything else.
+func c03DenomMetaKind(w *ZooWorld, ctx sdk.Context, denom string) string {
+	m, ok := w.FA.App().BankKeeper.GetDenomMetaData(ctx, denom)
+	if !ok {
+		return "-"
+	}
+	def := banktypes.Metadata{DenomUnits: []*banktypes.DenomUnit{{Denom: denom, Exponent: 0}}, Base: denom}
+	a, _ := m.Marshal()
+	b, _ := def.Marshal()
+	if bytes.Equal(a, b) {
+		return "d"
+	}
+	return "c"
+}
+
+// denomHistory: one `dnh` line.  TWO denoms (1: factory/<C>/<sub>, 2: factory/<F>/<sub>f, named after
+// different principals) are created, handed over, handed on, used by current / former admins, the
+// accounts in their names, bystanders and grantees, by signed transactions and through the wasm
+// bindings.  Through the bindings a message's own fields may DISAGREE (set_metadata / create_denom
+// carry a `denom`, whose admin the binding compares with the contract, and a `metadata.base`, the key
+// of the bank record): `base` is left empty, spells the same denom, the OTHER denom (existing or
+// not yet created) or an unrelated string.  At any point the chain may be exported and started
+// again from the export (token factory module): no transaction of anybody.  The monitors evaluate
+// the property on BOTH denoms after every step.
 func (d *c03Dir) denomHistory() {
 	w, fa, rng, r := d.w, d.w.FA, d.rng, d.r
 	a := fa.App()
 	all := append(append([]c03Principal{}, d.users...), d.vals...)
 	perm := rng.Perm(len(all))
 	pool := []c03Principal{all[perm[0]], all[perm[1]], all[perm[2]], all[perm[3]]}
-	C := pool[0]
+	C, F := pool[0], pool[1]
 	d.denomSeq++
-	sub := fmt.Sprintf("h%05d", d.denomSeq)
-	denom := "factory/" + C.acc.Addr.String() + "/" + sub
+	namesake := [3]c03Principal{{}, C, F}
+	subs := [3]string{"", fmt.Sprintf("h%05d", d.denomSeq), fmt.Sprintf("h%05df", d.denomSeq)}
+	denoms := [3]string{"", "factory/" + C.acc.Addr.String() + "/" + subs[1], "factory/" + F.acc.Addr.String() + "/" + subs[2]}
+	unrelated := "factory/" + pool[2].acc.Addr.String() + "/" + subs[1] + "x" // spelled in a `base` only (token 9)
 	haveWasm := d.wasm()
 	// a hostile governance case may have left an unpayable creation fee behind
 	_ = w.God(func(ctx sdk.Context) error {
 		fee := a.TokenFactoryKeeper.GetParams(ctx).DenomCreationFee
-		if !fee.IsValid() || !a.BankKeeper.SpendableCoins(ctx, C.acc.Addr).IsAllGTE(fee) {
+		if !fee.IsValid() || !a.BankKeeper.SpendableCoins(ctx, C.acc.Addr).IsAllGTE(fee) || !a.BankKeeper.SpendableCoins(ctx, F.acc.Addr).IsAllGTE(fee) {
 			a.TokenFactoryKeeper.SetParams(ctx, tokenfactorytypes.DefaultParams())
 		}
 		return nil
@@ -1474,58 +1524,173 @@ func (d *c03Dir) denomHistory() {
 			}
 		}
 	}
-	cur := 0         // admin as last observed on the implementation (0: none)
-	var former []int // principals that were admin before (and the creator named in the denom)
-	created := false
-	steps := 5 + rng.Intn(4)
+	var cur [3]int      // admin as last observed on the implementation (0: none)
+	var former [3][]int // principals that were admin before (and the creator named in the denom)
+	var created [3]bool
+	steps := 6 + rng.Intn(4)
 	var toks, outs []string
-	line := func() string { return fmt.Sprintf("dnh %d %s", C.pid, strings.Join(toks, " ")) }
+	line := func() string { return fmt.Sprintf("dnh %d %d %s", C.pid, F.pid, strings.Join(toks, " ")) }
 	nontrivial := false
+	wantReimport := false
+	type dstate = c03DenomSt
+	observe := func() (o [3]dstate) {
+		sts := c03DenomStates(w, fa.CtxCached(), denoms[1], denoms[2])
+		o[1], o[2] = sts[0], sts[1]
+		return o
+	}
+	show := func() string {
+		ctx := fa.CtxCached()
+		var p []string
+		for dn := 1; dn <= 2; dn++ {
+			adm := ""
+			if md, err := a.TokenFactoryKeeper.GetAuthorityMetadata(ctx, denoms[dn]); err == nil {
+				adm = md.Admin
+			}
+			p = append(p, fmt.Sprintf("%d/%s", d.pidOfAddr(adm), c03DenomMetaKind(w, ctx, denoms[dn])))
+		}
+		return strings.Join(p, ":")
+	}
+	// bookkeeping of who was admin (drives the choice of signers only)
+	track := func(post [3]dstate) {
+		for dn := 1; dn <= 2; dn++ {
+			created[dn] = post[dn].exists
+			if np := d.pidOfAddr(post[dn].admin); np != cur[dn] {
+				if cur[dn] > 1 {
+					former[dn] = append(former[dn], cur[dn])
+				}
+				if cur[dn] > 1 || np > 1 {
+					r.Stat("dnh:admin-changed")
+				}
+				cur[dn] = np
+			}
+			if created[dn] && len(former[dn]) == 0 && cur[dn] != namesake[dn].pid {
+				former[dn] = append(former[dn], namesake[dn].pid)
+			}
+		}
+	}
 	for i := 0; i < steps; i++ {
+		if !created[1] && i > 2 {
+			break // nothing exists: two more attempts were enough
+		}
+		// ---- the chain is exported and started again from the export: nobody's transaction
+		if i > 0 && (wantReimport || rng.Intn(100) < 8) {
+			wantReimport = false
+			pre := observe()
+			cfBefore := d.confirmSnapshot()
+			err := w.God(func(ctx sdk.Context) error { return fa.ReimportModuleCtx(ctx, "tokenfactory", "tokenfactory") })
+			if fa.Broken {
+				fa.Restart()
+				haveWasm = d.wasm()
+			}
+			post := observe()
+			toks = append(toks, "reimport;-;0;0;0;-;0")
+			res := "ok"
+			if err != nil {
+				res = "rej"
+				r.Hit("denom-export-import-failed", fmt.Sprintf("genesis export / import of the token factory failed: %.300v", err), line())
+			}
+			outs = append(outs, res+":"+show())
+			for dn := 1; dn <= 2; dn++ {
+				for _, comp := range c03DenomDiff(pre[dn].comp, post[dn].comp) {
+					if comp == "bank-metadata" && c03DenomMetaKind(w, fa.CtxCached(), denoms[dn]) == "d" {
+						// as built (observation shared with C16, compared with the model's `dReimport`): InitGenesis
+						// writes the default bank record again; nobody gains anything by it
+						r.Stat("dnh:reimport-resets-custom-metadata")
+						continue
+					}
+					r.Hit("denom-changed-without-transaction", fmt.Sprintf("a chain export / import (no transaction of anybody) changed %s of denom %d = factory/<%d>/%s, kept for its admin principal %d (admin afterwards: principal %d)",
+						comp, dn, namesake[dn].pid, subs[dn], d.pidOfAddr(pre[dn].admin), d.pidOfAddr(post[dn].admin)), line())
+				}
+			}
+			d.checkConfirms(cfBefore, line())
+			r.Stat("dnh:reimport")
+			if cur[1] > 1 && cur[1] != C.pid || cur[2] > 1 && cur[2] != F.pid {
+				r.Stat("dnh:reimport-after-hand-over")
+			}
+			if created[1] && cur[1] == 0 || created[2] && cur[2] == 0 {
+				r.Stat("dnh:reimport-after-renouncement")
+			}
+			track(post)
+			continue
+		}
+		dn := 1
+		if i > 0 && rng.Intn(4) == 0 {
+			dn = 2
+		}
+		denom, sub := denoms[dn], subs[dn]
 		kind := []string{"chadmin", "mint", "burn", "setmeta", "bind"}[rng.Intn(5)]
 		var S c03Principal
 		switch x := rng.Intn(100); {
-		case cur > 1 && x < 40:
-			S = byPid[cur]
-		case len(former) > 0 && x < 75:
-			S = byPid[former[rng.Intn(len(former))]]
+		case cur[dn] > 1 && x < 40:
+			S = byPid[cur[dn]]
+		case len(former[dn]) > 0 && x < 75:
+			S = byPid[former[dn][rng.Intn(len(former[dn]))]]
 		default:
 			S = pool[rng.Intn(len(pool))]
 		}
 		if S.acc == nil {
 			S = pool[rng.Intn(len(pool))]
 		}
-		if S.pid == cur && rng.Intn(100) < 45 {
+		if S.pid == cur[dn] && rng.Intn(100) < 40 {
 			kind = "chadmin" // hand-overs are what the histories are about
 		}
 		Cr, g := S, false
-		if cur > 1 && S.pid != cur && rng.Intn(5) == 0 {
-			Cr, g = byPid[cur], rng.Intn(2) == 0 // in the admin's name: without / with a fee grant
+		if cur[dn] > 1 && S.pid != cur[dn] && rng.Intn(5) == 0 {
+			Cr, g = byPid[cur[dn]], rng.Intn(2) == 0 // in the admin's name: without / with a fee grant
 		}
-		if i == 0 {
-			kind, S, Cr, g = "create", C, C, false
+		if !created[dn] && (i == 0 || rng.Intn(4) != 0) {
+			kind, S, Cr, g = "create", namesake[dn], namesake[dn], false
 			if rng.Intn(10) == 0 {
-				S, g = other(C.pid), rng.Intn(2) == 0
+				S, g = other(namesake[dn].pid), rng.Intn(2) == 0
 			}
 		}
-		if !created && i > 2 {
-			break // nothing exists: two more attempts were enough
-		}
 		route := "t"
-		if haveWasm && Cr.pid == S.pid && rng.Intn(4) == 0 {
+		if haveWasm && Cr.pid == S.pid && !g && rng.Intn(3) == 0 {
 			route = "w"
 		}
-		N := "-"
+		// fields that disagree: the admin of THIS denom names the OTHER denom as metadata.base
+		disagree := haveWasm && created[dn] && cur[dn] > 1 && rng.Intn(100) < 15
+		if disagree {
+			S, Cr, g, kind, route = byPid[cur[dn]], byPid[cur[dn]], false, "setmeta", "w"
+		}
+		arg := "-"
 		newAdmin := ""
-		if kind == "chadmin" {
+		baseTok, base := 0, "" // metadata.base of set_metadata / create_denom through the binding
+		withMeta := false
+		pickBase := func() {
 			switch x := rng.Intn(100); {
-			case x < 10 && route == "t":
-				N, newAdmin = "0", "" // renounce
+			case disagree || x < 25:
+				baseTok, base = 3-dn, denoms[3-dn]
+			case x < 55:
+				baseTok, base = 0, ""
+			case x < 90:
+				baseTok, base = dn, denom
+			default:
+				baseTok, base = 9, []string{unrelated, FABondDenom, "factory/x"}[rng.Intn(3)]
+			}
+		}
+		switch kind {
+		case "chadmin":
+			switch x := rng.Intn(100); {
+			case x < 15 && route == "t":
+				arg, newAdmin = "0", "" // renounce
 			case x < 16:
-				N, newAdmin = fmt.Sprint(Cr.pid), Cr.acc.Addr.String()
+				arg, newAdmin = fmt.Sprint(Cr.pid), Cr.acc.Addr.String()
 			default:
 				p := other(Cr.pid)
-				N, newAdmin = fmt.Sprint(p.pid), p.acc.Addr.String()
+				arg, newAdmin = fmt.Sprint(p.pid), p.acc.Addr.String()
+			}
+		case "setmeta":
+			baseTok, base = dn, denom
+			if route == "w" {
+				pickBase()
+			}
+			arg = fmt.Sprint(baseTok)
+		case "create":
+			if route == "w" && rng.Intn(2) == 0 {
+				withMeta = true
+				pickBase()
+				arg = fmt.Sprintf("m%d", baseTok)
 			}
 		}
 		if kind == "burn" {
@@ -1550,7 +1715,14 @@ func (d *c03Dir) denomHistory() {
 		n := w.next()
 		erc20 := fmt.Sprintf("0x%040x", 0xD000000+n)
 		desc := fmt.Sprintf("dnh %d", n)
-		preAdmin, preExists, pre := c03DenomState(w, fa.CtxCached(), denom)
+		// a metadata record consistent with the base it names (bank's Metadata.Validate passes)
+		unit := base
+		if unit == "" {
+			unit = denom
+		}
+		wasmMeta := tfbindingstypes.Metadata{Description: desc, Base: base, Display: unit, Name: "Dnh", Symbol: "DNH",
+			DenomUnits: []tfbindingstypes.DenomUnit{{Denom: unit, Exponent: 0}}}
+		pre := observe()
 		cfBefore := d.confirmSnapshot()
 		ok := false
 		if route == "t" {
@@ -1572,20 +1744,28 @@ func (d *c03Dir) denomHistory() {
 			}
 			ok = w.Deliver(S.acc, Cr.acc, msg).OK()
 		} else {
+			// one contract call: atomic (w.God commits only when the binding returns no error)
 			err := w.God(func(ctx sdk.Context) error {
 				var err error
 				switch kind {
 				case "create":
-					_, _, _, err = d.tfWasm.DispatchMsg(ctx, S.acc.Addr, "", tfbindingstypes.Message{CreateDenom: &tfbindingstypes.CreateDenom{Subdenom: sub}})
+					cd := &tfbindingstypes.CreateDenom{Subdenom: sub}
+					if withMeta {
+						cd.Metadata = &wasmMeta
+					}
+					_, _, _, err = d.tfWasm.DispatchMsg(ctx, S.acc.Addr, "", tfbindingstypes.Message{CreateDenom: cd})
 				case "chadmin":
 					_, _, _, err = d.tfWasm.DispatchMsg(ctx, S.acc.Addr, "", tfbindingstypes.Message{ChangeAdmin: &tfbindingstypes.ChangeAdmin{Denom: denom, NewAdminAddress: newAdmin}})
 				case "mint":
-					_, _, _, err = d.tfWasm.DispatchMsg(ctx, S.acc.Addr, "", tfbindingstypes.Message{MintTokens: &tfbindingstypes.MintTokens{Denom: denom, Amount: sdkmath.NewInt(100), MintToAddress: S.acc.Addr.String()}})
+					to := S
+					if rng.Intn(3) == 0 {
+						to = pool[rng.Intn(len(pool))]
+					}
+					_, _, _, err = d.tfWasm.DispatchMsg(ctx, S.acc.Addr, "", tfbindingstypes.Message{MintTokens: &tfbindingstypes.MintTokens{Denom: denom, Amount: sdkmath.NewInt(100), MintToAddress: to.acc.Addr.String()}})
 				case "burn":
 					_, _, _, err = d.tfWasm.DispatchMsg(ctx, S.acc.Addr, "", tfbindingstypes.Message{BurnTokens: &tfbindingstypes.BurnTokens{Denom: denom, Amount: sdkmath.NewInt(1)}})
 				case "setmeta":
-					_, _, _, err = d.tfWasm.DispatchMsg(ctx, S.acc.Addr, "", tfbindingstypes.Message{SetMetadata: &tfbindingstypes.SetMetadata{Denom: denom, Metadata: tfbindingstypes.Metadata{
-						Description: desc, Base: denom, Display: denom, Name: "Dnh", Symbol: "DNH", DenomUnits: []tfbindingstypes.DenomUnit{{Denom: denom, Exponent: 0}}}}})
+					_, _, _, err = d.tfWasm.DispatchMsg(ctx, S.acc.Addr, "", tfbindingstypes.Message{SetMetadata: &tfbindingstypes.SetMetadata{Denom: denom, Metadata: wasmMeta}})
 				case "bind":
 					_, _, _, err = d.skyWasm.DispatchMsg(ctx, S.acc.Addr, "", skywaybindingstypes.Message{SetErc20ToDenom: &skywaybindingstypes.SetErc20ToDenom{
 						Erc20Address: erc20, TokenDenom: denom, ChainReferenceId: ZooChain}})
@@ -1598,26 +1778,31 @@ func (d *c03Dir) denomHistory() {
 				haveWasm = d.wasm()
 			}
 		}
-		postAdmin, postExists, post := c03DenomState(w, fa.CtxCached(), denom)
-		tok := fmt.Sprintf("%s;%s;%d;%d;%d;%s", kind, route, S.pid, Cr.pid, map[bool]int{false: 0, true: 1}[g], N)
+		post := observe()
+		tok := fmt.Sprintf("%s;%s;%d;%d;%d;%s;%d", kind, route, S.pid, Cr.pid, map[bool]int{false: 0, true: 1}[g], arg, dn)
 		toks = append(toks, tok)
 		res := "rej"
 		if ok {
 			res = "ok"
 			nontrivial = true
 		}
-		outs = append(outs, fmt.Sprintf("%s:%d", res, d.pidOfAddr(postAdmin)))
-		// --- the property on the implementation: the denom's state is its current admin's (before it
-		// exists: the account it is named after); it changes only with that principal's authorisation
-		if diff := c03DenomDiff(pre, post); len(diff) > 0 {
-			owner := preAdmin
-			if !preExists {
-				owner = C.acc.Addr.String()
+		outs = append(outs, res+":"+show())
+		// --- the property on the implementation, for EACH denom (whichever the message names, in whichever
+		// field): a denom's state is its current admin's (before it exists: the account it is named after);
+		// it changes only with that principal's authorisation
+		for x := 1; x <= 2; x++ {
+			diff := c03DenomDiff(pre[x].comp, post[x].comp)
+			if len(diff) == 0 {
+				continue
+			}
+			owner := pre[x].admin
+			if !pre[x].exists {
+				owner = namesake[x].acc.Addr.String()
 			}
 			authorised := owner != "" && (S.acc.Addr.String() == owner || d.grants[[2]int{d.pidOfAddr(owner), S.pid}])
 			if !ok || !authorised {
-				r.Hit("denom-cross-principal-write", fmt.Sprintf("state kept for denom factory/<%d>/%s (%v) changed by %s (route %s) signed by principal %d (creator %d, fee grant %v) although its admin at that time was principal %d (accepted=%v)",
-					C.pid, sub, diff, kind, route, S.pid, Cr.pid, g, d.pidOfAddr(owner), ok), line())
+				r.Hit("denom-cross-principal-write", fmt.Sprintf("state kept for denom %d = factory/<%d>/%s (%v) changed by %s (route %s, message denom %d, metadata.base token %s) signed by principal %d (creator %d, fee grant %v) although its admin at that time was principal %d (accepted=%v)",
+					x, namesake[x].pid, subs[x], diff, kind, route, dn, arg, S.pid, Cr.pid, g, d.pidOfAddr(owner), ok), line())
 			}
 			r.Stat("dnh:denom-state-changed")
 		}
@@ -1625,12 +1810,24 @@ func (d *c03Dir) denomHistory() {
 		r.Stat("dnh:" + kind + ":" + res)
 		if route == "w" {
 			r.Stat("dnh:route-wasm")
+			if (kind == "setmeta" || withMeta) && baseTok == 3-dn {
+				r.Stat("dnh:wasm-base-names-other-denom")
+				if !pre[3-dn].exists {
+					r.Stat("dnh:wasm-base-names-other-denom-not-yet-created")
+				}
+				if S.pid == cur[dn] || kind == "create" && S.pid == namesake[dn].pid {
+					r.Stat("dnh:wasm-base-names-other-denom-by-admin")
+				}
+			}
+		}
+		if dn == 2 {
+			r.Stat("dnh:second-denom")
 		}
 		switch {
-		case cur > 1 && S.pid == cur && Cr.pid == cur:
+		case cur[dn] > 1 && S.pid == cur[dn] && Cr.pid == cur[dn]:
 			r.Stat("dnh:by-current-admin")
-		case S.pid != cur && func() bool {
-			for _, f := range former {
+		case S.pid != cur[dn] && func() bool {
+			for _, f := range former[dn] {
 				if f == S.pid {
 					return true
 				}
@@ -1646,21 +1843,10 @@ func (d *c03Dir) denomHistory() {
 			}
 			delete(d.grants, [2]int{Cr.pid, S.pid})
 		}
-		created = postExists
-		if np := d.pidOfAddr(postAdmin); np != cur {
-			if cur > 1 {
-				former = append(former, cur)
-			} else if created && len(former) == 0 && np != C.pid {
-				former = append(former, C.pid)
-			}
-			if cur > 1 || np > 1 {
-				r.Stat("dnh:admin-changed")
-			}
-			cur = np
+		if kind == "chadmin" && ok && pre[dn].admin != post[dn].admin && (rng.Intn(100) < 35 || post[dn].admin == "" && rng.Intn(2) == 0) {
+			wantReimport = true // a restart right after a hand-over / renouncement
 		}
-		if created && len(former) == 0 && cur != C.pid {
-			former = append(former, C.pid)
-		}
+		track(post)
 	}
 	r.Op(line(), strings.Join(outs, ","))
 	r.Stat("sc:denom-history")
